@@ -3,6 +3,11 @@
 import json, os
 V = os.path.dirname(os.path.dirname(os.path.abspath(__file__)))
 reg = json.load(open(os.path.join(V, "harness", "registry.json")))
+import glob
+for f in glob.glob(os.path.join(V, "harness", "props", "c*.meta.json")):
+    pid = os.path.basename(f)[:-10].upper()
+    if pid in reg.get("registered", []):
+        reg["checks"][pid] = json.load(open(f))
 props = [json.loads(l) for l in open(os.path.join(V, "properties.jsonl"))]
 checks, na = [], []
 for p in props:
